@@ -1,19 +1,35 @@
 #!/bin/sh
-# Offline setup after a fresh restore: build the Coq development (full .vo) and warm the
-# C++/OCaml caches from the current /repo tree.  Everything is rebuilt from files on disk.
+# Offline setup after a fresh restore: everything is rebuilt from files on disk only.
+# It warms the caches by running every registered check once (quick tier): that regenerates
+# coq/gen/*.v from /repo, builds the Coq development (full .vo), the extracted OCaml drivers
+# and the C++ harnesses/engine from the current /repo tree.  Failures here are not verdicts;
+# the checks are run again by their own commands.
 cd "$(dirname "$0")"
-python3 - <<'PY'
-import sys
+exec python3 -u - <<'PY'
+import json, subprocess, sys, time, os
+from concurrent.futures import ThreadPoolExecutor
 sys.path.insert(0, '.')
-from vlib import coqbuild, cbuild
-files = coqbuild.write_project()
-props = [f[:-2] + '.vo' for f in files if f.startswith('Properties_')]
-ok, log, errs = coqbuild.make(props, timeout=7200)
-print('coq build ok' if ok else 'coq build FAILED: %s' % errs[:3])
+t0 = time.time()
+m = json.load(open('MANIFEST.json'))
+ids = [c['property_id'] for c in m['checks']]
+from vlib import cbuild
 try:
-    cbuild.build_libs()
-    print('texel libs built')
+    cbuild.build_libs(); print('[setup %5.0fs] texel libraries built' % (time.time() - t0), flush=True)
+    cbuild.build_engine(); print('[setup %5.0fs] engine built' % (time.time() - t0), flush=True)
 except Exception as e:
-    print('lib build failed:', e)
+    print('[setup] library build failed:', str(e)[:500], flush=True)
+def one(pid):
+    t = time.time()
+    try:
+        p = subprocess.run(['./check', pid, '--tier', 'quick'], stdout=subprocess.PIPE, stderr=subprocess.STDOUT, text=True, timeout=2400)
+        tail = [l for l in p.stdout.split('\n') if 'done:' in l or 'VIOLATION' in l or 'error' in l.lower()][-2:]
+        return '[setup %5.0fs] %s warmed in %.0fs rc=%d %s' % (time.time() - t0, pid, time.time() - t, p.returncode, ' | '.join(tail)[:300])
+    except subprocess.TimeoutExpired:
+        return '[setup %5.0fs] %s warm-up timed out' % (time.time() - t0, pid)
+# heavy Coq builds first; three lanes (the Coq build itself is serialised by a lock and uses -j16)
+order = sorted(ids, key=lambda i: 0 if i in ('C01', 'C05', 'C12', 'C02', 'C10', 'C17') else 1)
+with ThreadPoolExecutor(max_workers=3) as ex:
+    for line in ex.map(one, order):
+        print(line, flush=True)
+print('[setup %5.0fs] done' % (time.time() - t0), flush=True)
 PY
-exit 0
